@@ -21,6 +21,7 @@ structure Cur where
   res : RState Res.State := .ok (Res.init 1)
   job : RState JobMap.St := .ok {}
   sig : RState SigMap.St := .ok {}
+  sig2 : RState SigMap2.St := .ok {}
   ack : RState AckMap.St := .ok {}
   wake : RState WakeMap.St := .ok {}
   pool : RState PoolMap.St := .ok {}
@@ -64,10 +65,14 @@ def finish (sel : List String) (c : Cur) (e : EndInfo) : IO Unit := do
     | .ok _ => ("ok", [])
     | .na _ => ("na", [])
     | .rejected ln why => ("Pool", [s!"M {c.idx} Pool line={ln} {why}"])
-  let model := if model6 != "ok" && model6 != "na" then model6 else if model5 != "ok" && model5 != "na" then model5 else if model1 != "ok" && model1 != "na" then model1 else if model2 != "ok" && model2 != "na" then model2 else if model3 != "ok" && model3 != "na" then model3 else if model4 != "ok" && model4 != "na" then model4 else "ok"
-  let mlines := ml1 ++ ml2 ++ ml3 ++ ml4 ++ ml5 ++ ml6
+  let (model7, ml7) : String × List String := match c.sig2 with
+    | .ok _ => ("ok", [])
+    | .na why => ("na", [s!"N {c.idx} Sig2 {why}"])
+    | .rejected ln why => ("Sig2", [s!"M {c.idx} Sig2 line={ln} {why}"])
+  let model := if model7 != "ok" && model7 != "na" then model7 else if model6 != "ok" && model6 != "na" then model6 else if model5 != "ok" && model5 != "na" then model5 else if model1 != "ok" && model1 != "na" then model1 else if model2 != "ok" && model2 != "na" then model2 else if model3 != "ok" && model3 != "na" then model3 else if model4 != "ok" && model4 != "na" then model4 else "ok"
+  let mlines := ml1 ++ ml2 ++ ml3 ++ ml4 ++ ml5 ++ ml6 ++ ml7
   let nas := (if model1 == "na" then 1 else 0) + (if model2 == "na" then 1 else 0) + (if model3 == "na" then 1 else 0)
-  IO.println s!"RESULT {c.idx}{summary} model={model} na={nas} obs={tr.length} lines={c.nlines} ph={c.ph} sh={c.sh} nt={nt}"
+  IO.println s!"RESULT {c.idx}{summary} model={model} na={nas} obs={tr.length} lines={c.nlines} ph={c.ph} sh={c.sh} nt={nt} ms=Res:{model1},Job:{model2},Sig:{model3},Ack:{model4},Wake:{model5},Pool:{model6},Sig2:{model7}"
   for m in mlines do IO.println m
   for v in viols do IO.println v
 
@@ -91,6 +96,7 @@ partial def loop (h : IO.FS.Stream) (sel : List String) (c : Cur) : IO Unit := d
     let c := match parseRaw line with
       | some rl => { c with res := ResMap.feed c.res (c.nlines + 1) rl, job := JobMap.feed c.job (c.nlines + 1) rl,
                                sig := SigMap.feed c.sig (c.nlines + 1) rl,
+                               sig2 := SigMap2.feed c.sig2 (c.nlines + 1) rl,
                                ack := AckMap.feed c.ack (c.nlines + 1) rl,
                                wake := WakeMap.feed c.wake (c.nlines + 1) rl,
                                pool := PoolMap.feed c.pool (c.nlines + 1) rl }
@@ -103,7 +109,7 @@ partial def loop (h : IO.FS.Stream) (sel : List String) (c : Cur) : IO Unit := d
       loop h sel { c with obs := c.obs.push (.ret g cid cl' r), nlines := c.nlines + 1, calls := c.calls.filter (·.1 != cid) }
     | some .recover =>
       -- a fresh process: object names start again, so the model replays start again
-      loop h sel { c with obs := c.obs.push .recover, nlines := c.nlines + 1, res := .ok (Res.init 1), job := .ok {}, sig := .ok {}, wake := .ok {}, pool := .ok {}, calls := [] }
+      loop h sel { c with obs := c.obs.push .recover, nlines := c.nlines + 1, res := .ok (Res.init 1), job := .ok {}, sig := .ok {}, sig2 := .ok {}, wake := .ok {}, pool := .ok {}, calls := [] }
     | some o =>
       let obs := match parseObs2 line with | some o2 => (c.obs.push o).push o2 | none => c.obs.push o
       loop h sel { c with obs := obs, nlines := c.nlines + 1 }
